@@ -25,6 +25,7 @@ func propC06(c *Ctx) propInfo {
 	c.bufferSizing()
 	c.writersDoNotMutateInput()
 	c.cellCapacity()
+	c.capacityCountGuards()
 	c.bigIntChunks()
 	c.oneBitSigned()
 	c.fiftHex()
